@@ -391,6 +391,9 @@ def sk_writes(tier):
                     out.append({"x": ALPHA[:k], "pat": pat, "form": f, "rhs": rhs})
                     if k - pat.count("N") >= 2 and f in ("dict_letter", "tuple") and rhs in ("number", "array"):
                         out.append({"x": ALPHA[:k], "pat": pat, "form": f, "rhs": rhs, "order": "reversed"})
+    # history: the whole target was filled with a whole number (a Python int) before the keyed write of fractions
+    for pat, rhs in (("I", "number"), ("IN", "number"), ("NS", "number"), ("LN", "number"), ("IN", "array"), ("NS", "array"), ("NN", "array")):
+        out.append({"x": ALPHA[: len(pat)], "pat": pat, "form": "dict_letter", "rhs": rhs, "history": "filled_with_an_int"})
     if tier == "quick":
         for pat in displaced_patterns("SL"):
             out.append({"x": ALPHA[:4], "pat": pat, "form": "dict_letter", "rhs": "number"})
@@ -430,6 +433,11 @@ def u_write(W, sk):
     x = W.array("x", [D[l] for l in sk["x"]])
     K = Key(W, D, sk["x"], sk["pat"], sk["form"], order=sk.get("order"))
     key = K.key()
+    if sk.get("history") == "filled_with_an_int":
+        h = W.call(lambda: x.__setitem__(Ellipsis, 2))
+        W.prove("history.fill_with_int.returns", h.kind == "return", detail=repr(h))
+        if h.kind != "return":
+            return
     before = SL.lab_of_values(W, x.values.copy(), [D[l] for l in sk["x"]])
     dsnap = (x.dims, list(x.dims.dim_list), x.values)
     rdims = []
